@@ -183,6 +183,9 @@ pub fn replay_file(path: &Path) -> Result<(bool, bool, String, String), String> 
     for line in out.hist.iter().map(crate::report::ev_line) {
         eprintln!("{line}");
     }
+    eprintln!("gates: {:?}", out.gates);
+    eprintln!("senders: {:?}", out.senders);
+    eprintln!("runnable_left={} armed_left={} conn_done={:?}", out.runnable_left, out.armed_left, out.conn_done);
     Ok((same_key, same_digest, prop, format!("{key}: {msg}")))
 }
 
